@@ -53,6 +53,7 @@ ModelAct(ev) ==
       [] ev.e = "DropAll"     -> DropAll
       [] ev.e = "Then"        -> Then(ev.b, ev.sc)
       [] ev.e = "ThenLate"    -> ThenLate(ev.sc)
+      [] ev.e = "ThenReplace" -> ThenReplace(ev.sc, ev.old)
       [] ev.e = "Finish"      -> Finish(ev.v, ev.b)
       [] OTHER                -> FALSE
 
@@ -71,7 +72,8 @@ MonNext(m, ev) ==
         due |-> m.due \/ (later /\ m.ctx = "alive"),
         ctx |-> o.ctx,
         \* a self-capturing continuation was registered (then() before finish())
-        selfReg |-> m.selfReg \/ (isThen /\ ev.sc /\ ~m.finDone),
+        selfReg |-> IF ev.e = "ThenReplace" THEN ev.sc      \* the replaced closure is gone
+                    ELSE m.selfReg \/ (isThen /\ ev.sc /\ ~m.finDone),
         r2 |-> ev.r2]          \* runs of continuations attached when no value was left
 
 Failed(m, n) ==
